@@ -86,6 +86,14 @@ def outcomeText {α} [Repr α] : Outcome α → String
   | .hang => "hang"
   | .fault => "fault"
 
+/-- copy of `drainOffsets` of Lemmas/FuncsLookup.lean -/
+def drainOffsetsD (B : Nat) : Nat → Nat → Nat → List Nat
+  | 0, _, _ => []
+  | fuel + 1, off, left =>
+    match Generated.packOffsetsNext B off left with
+    | (some o, off', left') => o :: drainOffsetsD B fuel off' left'
+    | (none, _, _) => []
+
 def grid : List Nat :=
   [0, 1, 2, 3, 4, 37, 38, 39, 127, 128, 255, 256, 257, 4094, 4095, 4096, 65535, 65536, 65537, 16777215, 16777216,
    4194303, 4194304, 4194305, 4294967295, 4294967296, 281474976710655, 281474976710656,
@@ -282,3 +290,11 @@ def main : IO Unit := do
     (fun x => outcomeText ((Generated.arrayPropertyCreate (x.1.drop x.2.1) x.2.2.1 x.2.2.2 none none).bind fun r =>
       (resolveArray noStore r.1 r.2.1 x.2.2.2 r.2.2).map' Val.arr))
     (fun x => outcomeText (decodeProp noStore x.1 ⟨x.2.1, [], .array x.2.2.1 x.2.2.2 none none⟩))
+  let poIn : List (Nat × Nat) := pairs [0, 128, 384, 1000, 65536, 70000] [0, 1, 2, 3, 7]
+  cmp1 "packOffsets" poIn
+    (fun x => let st := Generated.packOffsetsNew packInfoBlockSize x.1 x.2; drainOffsetsD packInfoBlockSize (x.2 + 1) st.1 st.2)
+    (fun x => (List.range x.2).map (fun k => packInfosOffset x.1 x.2 + k * packInfoBlockSize))
+  let caIn : List (List Nat × Nat) := [([], 0), ([], 5), ([3], 0), ([3, 3], 9), ([1, 300, 70000], 4096), ([5, 10], 1)]
+  cmp1 "clusterAddContent" caIn
+    (fun x => Generated.clusterAddContent (endOffsets (x.1.map (fun n => List.replicate n (7 : UInt8))) 0) 3 x.2)
+    (fun x => some (endOffsets ((x.1.map (fun n => List.replicate n (7 : UInt8))) ++ [List.replicate x.2 7]) 0, (3, x.1.length)))
